@@ -881,6 +881,32 @@ func requiredCases(t *gcore.Type) []gcore.Case {
 			}
 		}
 	}
+	// the extension position: a message-typed extension whose type has required fields
+	for _, xt := range t.Exts() {
+		xd := xt.TypeDescriptor()
+		sub := xd.Message()
+		if sub == nil || xd.IsList() || !hasRequired(sub) {
+			continue
+		}
+		for _, kind := range []string{"complete", "deficient", "deficient-empty"} {
+			v := dynamicpb.NewMessage(sub)
+			switch kind {
+			case "complete":
+				gcore.FillRequired(v)
+			case "deficient":
+				for j := 0; j < sub.Fields().Len(); j++ {
+					if sf := sub.Fields().Get(j); sf.Cardinality() == protoreflect.Optional && sf.Message() == nil {
+						gcore.SetSimple(v, sf)
+						break
+					}
+				}
+			}
+			mm := dynamicpb.NewMessage(md)
+			gcore.Copy(mm, full())
+			mm.Set(xd, protoreflect.ValueOfMessage(v))
+			out = append(out, gcore.Case{ID: fmt.Sprintf("extension:%s/%s", xd.Name(), kind), Msg: mm})
+		}
+	}
 	if len(req) > 0 || len(out) > 0 {
 		out = append(out, gcore.Case{ID: "empty-message", Msg: dynamicpb.NewMessage(md)})
 	}
